@@ -99,6 +99,21 @@ def nesting(ctx, report, clause):
             opened = sorted(name for closing, name in tags if not closing)
             if not ok or stack or opened != sorted(tag_of[k] for k in combo) or "x" not in text:
                 bad.append({"style": sorted(combo), "cue_text": text})
+            # the same span over a line break, over two, and between other text: the tags in the cue text still nest
+            for label, seq in (("across a break", [("S", True, style), ("T", "x"), ("B",), ("T", "y"), ("S", False, style)]),
+                               ("across two breaks", [("S", True, style), ("T", "x"), ("B",), ("B",), ("T", "y"), ("S", False, style)]),
+                               ("between text", [("T", "a"), ("S", True, style), ("T", "x"), ("B",), ("T", "y"), ("S", False, style),
+                                                 ("T", "z")])):
+                groups = c.groups(seq) or []
+                text = "".join(t for t, _ in groups)
+                stack, ok = [], True
+                for closing, name in re.findall(r"<(/?)(\w+)>", text):
+                    if not closing:
+                        stack.append(name)
+                    elif not stack or stack.pop() != name:
+                        ok = False
+                if not ok or stack or not all(ch in text for ch in "xy"):
+                    bad.append({"style": sorted(combo), "span": label, "cue_text": text})
     # a flag that is present but false opens nothing
     (text, _), = c.groups([("S", True, {"italics": False, "bold": True}), ("T", "x"), ("S", False, {"italics": False, "bold": True})])
     if "<i>" in text or "<b>" not in text:
